@@ -215,43 +215,45 @@ func c18TagLookups(p *Prog, r *Report) {
 			continue
 		}
 		nSet := 0
-		forEachCall(fn, func(site ssa.CallInstruction) {
-			c := site.Common()
-			f := c.StaticCallee()
-			if f == nil || fnPkgPath(f) != "reflect" || f.Name() != "Set" {
-				return
-			}
-			nSet++
-			needs := map[string]string{"fct": "param:fct"}
-			if typ == "FilterType" {
-				needs["typ"] = "param:tagType"
-			}
-			got := map[string]bool{}
-			for _, g := range Guards(site.Block()) {
-				b, ok := g.Cond.(*ssa.BinOp)
-				if !ok || (b.Op != token.EQL && b.Op != token.NEQ) {
-					continue
+		p.InScope(fn, func() {
+			forEachCall(fn, func(site ssa.CallInstruction) {
+				c := site.Common()
+				f := c.StaticCallee()
+				if f == nil || fnPkgPath(f) != "reflect" || f.Name() != "Set" {
+					return
 				}
-				eq := (b.Op == token.EQL) == g.Val
-				if !eq {
-					continue
+				nSet++
+				needs := map[string]string{"fct": "param:fct"}
+				if typ == "FilterType" {
+					needs["typ"] = "param:tagType"
 				}
-				for tag, param := range needs {
-					if (tagLookupOf(b.X) == tag && strings.HasPrefix(Path(b.Y), "param:") && paramMatches(b.Y, param)) ||
-						(tagLookupOf(b.Y) == tag && strings.HasPrefix(Path(b.X), "param:") && paramMatches(b.X, param)) {
-						got[tag] = true
+				got := map[string]bool{}
+				for _, g := range Guards(site.Block()) {
+					b, ok := g.Cond.(*ssa.BinOp)
+					if !ok || (b.Op != token.EQL && b.Op != token.NEQ) {
+						continue
+					}
+					eq := (b.Op == token.EQL) == g.Val
+					if !eq {
+						continue
+					}
+					for tag, param := range needs {
+						if (tagLookupOf(b.X) == tag && strings.HasPrefix(Path(b.Y), "param:") && paramMatches(b.Y, param)) ||
+							(tagLookupOf(b.Y) == tag && strings.HasPrefix(Path(b.X), "param:") && paramMatches(b.X, param)) {
+							got[tag] = true
+						}
 					}
 				}
-			}
-			ok := true
-			var missing []string
-			for tag := range needs {
-				if !got[tag] {
-					ok = false
-					missing = append(missing, tag)
+				ok := true
+				var missing []string
+				for tag := range needs {
+					if !got[tag] {
+						ok = false
+						missing = append(missing, tag)
+					}
 				}
-			}
-			r.Check("R7g", fmt.Sprintf("model.%s.SetDataForFunction|Set#%d", typ, nSet), ok, p.InstrPos(site), fmt.Sprintf("missing equality guards on tags %v", missing))
+				r.Check("R7g", fmt.Sprintf("model.%s.SetDataForFunction|Set#%d", typ, nSet), ok, p.InstrPos(site), fmt.Sprintf("missing equality guards on tags %v", missing))
+			})
 		})
 		r.Floor("R7g", typ+" reflective Set sites", nSet, 2)
 	}
